@@ -40,7 +40,7 @@ class C01(Check):
                'rxsci/operators/filter.py', 'rxsci/operators/first.py', 'rxsci/operators/last.py', 'rxsci/operators/take.py', 'rxsci/operators/tee_map.py',
                'rxsci/operators/flat_map.py', 'rxsci/operators/do_action.py', 'rxsci/operators/assert_.py', 'rxsci/operators/progress.py',
                'rxsci/operators/distinct_until_changed.py', 'rxsci/data/batch.py', 'rxsci/data/clip.py', 'rxsci/data/fill_none.py', 'rxsci/data/to_list.py', 'rxsci/data/to_array.py']
-    REQUIRED_TAGS = DUAL + ['zip', 'merge', 'combine_latest', 'group', 'multiplex', 'roll', 'split', 'len>=3', 'truthy-predicates', 'many-groups', 'scale', 'assert-fails', 'seed-factory-whose-product-holds-an-identity', 'ints-beyond-2**31-within-64-bits'] + PRELUDE_TAGS
+    REQUIRED_TAGS = DUAL + ['zip', 'merge', 'combine_latest', 'group', 'multiplex', 'roll', 'split', 'len>=3', 'truthy-predicates', 'many-groups', 'scale', 'assert-fails', 'seed-factory-whose-product-holds-an-identity', 'ints-beyond-2**31-within-64-bits', 'items-that-are-lazy-iterables-without-len'] + PRELUDE_TAGS
     REQUIRED_OBSERVED = ['groups_compared', 'items_compared']
 
     def generate(self, rng, tier, shard, nshards):
@@ -83,6 +83,25 @@ class C01(Check):
                 ng = rng.choice([1, 2, 3]) if mode == 'group' else 1
                 case = {'prog': prog, 'mode': mode, 'seqs': [[base + rng.randint(0, 10 ** 6) for _ in range(rng.choice([1, 2, 5, 12]))] for _ in range(ng)],
                         'shape': rng.choice(gen.INTERLEAVINGS), 'iseed': rng.randrange(1 << 30), 'truthy': False, 'bigints': True}
+                if mode == 'roll':
+                    case['ctx'] = ['roll', rng.randint(1, 5), rng.randint(1, 5), None]
+                elif mode == 'split':
+                    case['ctx'] = ['split', 'div:%d' % rng.randint(2, 5), None]
+                yield case
+                continue
+            if k % 50 == 17:
+                # items that are lazy one-shot iterables without len() - a generator, a zip, a map object - in front of flat_map
+                red = rng.random() < 0.5
+                prog = rng.choice([
+                    [['map', 'genup:%d' % rng.randint(2, 5)], ['flat_map']],
+                    [['map', 'zipit:%d' % rng.randint(2, 4)], ['flat_map'], ['map', 't0']],
+                    [['map', 'mapit:%d' % rng.randint(2, 5)], ['flat_map'], ['scan', 'acc_add', 'zero', red, None]],
+                    [['filter', 'modne:3:0'], ['map', 'genup:3'], ['flat_map'], ['count', red]],
+                ])
+                mode = modes[(k // 50) % len(modes)]
+                ng = rng.choice([1, 2, 3]) if mode == 'group' else 1
+                case = {'prog': prog, 'mode': mode, 'seqs': [[rng.randint(0, 12) for _ in range(rng.choice([0, 1, 3, 8]))] for _ in range(ng)],
+                        'shape': rng.choice(gen.INTERLEAVINGS), 'iseed': rng.randrange(1 << 30), 'truthy': False, 'lazy': True}
                 if mode == 'roll':
                     case['ctx'] = ['roll', rng.randint(1, 5), rng.randint(1, 5), None]
                 elif mode == 'split':
@@ -159,6 +178,8 @@ class C01(Check):
                 out.tags.append('seed-factory-whose-product-holds-an-identity')
         if len(prog) >= 3:
             out.tags.append('len>=3')
+        if case.get('lazy'):
+            out.tags.append('items-that-are-lazy-iterables-without-len')
         if case.get('bigints'):
             out.tags.append('ints-beyond-2**31-within-64-bits')
         if case.get('truthy'):
